@@ -2,6 +2,8 @@
 spellings of the inline link style (`inlineStyle`): model (`Pipeline.convert`) = specification (`spec`) =
 `markdown.Markdown().convert`.
 
+`run(driver, rng, n)` is the entry point of the correspondence framework.
+
 python corr/linkdoc.py <n documents> <seed>       (4 spellings per document)
   flat documents of rules, headings of words / escapes / code spans / emphasised words, and paragraphs that are one
   line of such items and inline links around such items (destinations without `_` and `&`, no bracket in the text of a
@@ -80,43 +82,75 @@ def lean_block(b):
     return '.rule'
 
 
-def run(n, seed):
+SPELLINGS = 4
+MAX_DIS = 50
+
+
+def run(driver, rng, n, full=False):
+    """correspondence entry point (`framework.pmap('corr.linkdoc', 'run', seed, n, shards)`): `n` generated documents,
+    each accepted one printed under 4 spellings of the inline link style drawn from `rng`; on every printed source that
+    is not skipped (see the module text)  model (`convert`) = specification (`doc.spec`) = `markdown.Markdown().convert`.
+    `distinct` = distinct compared sources with a link.  A generated document that `doc.wf` rejects is counted in
+    dist['rejected_by_wf'] and skipped."""
     import markdown
-    rng = random.Random(seed)
     g = D.Gen(rng, 4)
-    d = proto.Driver()
-    md = markdown.Markdown()
-    res = dict(documents=0, cases=0, differences=0, rejected=0, skipped=0, with_links=0, links_max=0,
-               link_first=0, titles=0)
-    dis = []
-    for _ in range(n):
-        doc = gen_doc(rng, g)
-        e = D.enc_doc(doc)
-        if d.ask('doc.wf', e) != '1':
-            res['rejected'] += 1
-            continue
-        res['documents'] += 1
+    docs = [gen_doc(rng, g) for _ in range(n)]
+    encs = [D.enc_doc(d) for d in docs]
+    wf = driver.ask_many([('doc.wf', e) for e in encs]) if docs else []
+    keep = [(d, e) for d, e, w in zip(docs, encs, wf) if w == '1']
+    res = dict(documents=len(keep), cases=0, differences=0, rejected=len(docs) - len(keep), skipped=0, with_links=0,
+               links_max=0, link_first=0, titles=0)
+    dist = {'documents': len(keep), 'rejected_by_wf': len(docs) - len(keep), 'skipped': 0}
+    for doc, _ in keep:
         nl = [sum(x[0] == 'L' for x in b[1]) for b in doc if b[0] == 'p']
         res['with_links'] += any(nl)
         res['links_max'] = max([res['links_max']] + nl)
+        for k in nl: dist['para_links:%d' % k] = dist.get('para_links:%d' % k, 0) + 1
         res['link_first'] += any(b[0] == 'p' and b[1][0][0] == 'L' for b in doc)
         res['titles'] += any(b[0] == 'p' and any(x[0] == 'L' and x[3] is not None for x in b[1]) for b in doc)
-        spec = dec_str(d.ask('doc.spec', e))
-        for _ in range(4):
+    for k in ('with_links', 'link_first', 'titles'): dist[k] = res[k]
+    specs = driver.ask_many([('doc.spec', e) for _, e in keep]) if keep else []
+    reqs, meta = [], []
+    for i, (doc, e) in enumerate(keep):
+        for _ in range(SPELLINGS):
             sp = ','.join(str(k) for k in spelling(rng))
-            src = dec_str(d.ask('doc.print', e, sp))
-            if '<' in src or ('\n[' in src and ']: ' in src):
-                res['skipped'] += 1
-                continue
-            a = d.ask('convert', '4', 'xhtml', enc_str(src))
-            model = dec_str(a[3:]) if a.startswith('ok ') else a
+            reqs.append(('doc.print', e, sp)); meta.append(i)
+    srcs = [dec_str(x) for x in driver.ask_many(reqs)] if reqs else []
+    todo = []
+    for k, src in enumerate(srcs):
+        if '<' in src or ('\n[' in src and ']: ' in src):
+            res['skipped'] += 1
+        else:
+            todo.append(k)
+    dist['skipped'] = res['skipped']
+    answers = driver.ask_many([('convert', '4', 'xhtml', enc_str(srcs[k])) for k in todo]) if todo else []
+    md = markdown.Markdown()
+    dis, seen = [], set()
+    for k, a in zip(todo, answers):
+        src, i = srcs[k], meta[k]
+        spec = dec_str(specs[i])
+        model = dec_str(a[3:]) if a.startswith('ok ') else a
+        try:
             real = md.reset().convert(src)
-            res['cases'] += 1
-            if not (model == spec == real):
-                res['differences'] += 1
-                dis.append(dict(src=src, spec=spec, model=model, real=real))
-    d.close()
-    return res, dis
+        except Exception as ex:  # noqa: BLE001   an exception of the converter is a disagreement
+            real = 'EXCEPTION %r' % (ex,)
+            md = markdown.Markdown()
+        if '](' in src: seen.add(src)
+        if not (model == spec == real):
+            dis.append(dict(src=src, spec=spec, model=model, real=real, doc=keep[i][0], sp=reqs[k][2]))
+    res['cases'] = len(todo); res['differences'] = len(dis)
+    dis.sort(key=lambda x: (len(x['src']), x['src']))
+    dist['disagreements_total'] = len(dis)
+    out = {'cases': len(todo), 'distinct': len(seen),
+           'disagreements': [{'op': 'convert(print d sp) = spec d = markdown(print d sp)', 'input': N.clip(x['src'], 1500),
+                              'spelling': N.clip(x['sp'], 120), 'spec': N.clip(x['spec']), 'model': N.clip(x['model']),
+                              'impl': N.clip(x['real']), 'doc': N.clip(x['doc'], 800)} for x in dis[:MAX_DIS]],
+           'samples': [{'op': 'doc.print', 'input': N.clip(keep[meta[k]][0], 400), 'model': N.clip(srcs[k], 400)}
+                       for k in rng.sample(range(len(reqs)), min(3, len(reqs)))],
+           'dist': dict(sorted(dist.items()))}
+    if full:
+        out.update({'res': res, 'dis': dis})
+    return out
 
 
 if __name__ == '__main__' and sys.argv[1] == 'lean':
@@ -136,8 +170,11 @@ if __name__ == '__main__' and sys.argv[1] == 'lean':
 if __name__ == '__main__':
     n = int(sys.argv[1]) if len(sys.argv) > 1 else 2000
     seed = int(sys.argv[2]) if len(sys.argv) > 2 else 1
-    res, dis = run(n, seed)
-    print(json.dumps(res, indent=1))
+    d = proto.Driver()
+    out = run(d, random.Random(seed), n, full=True)
+    d.close()
+    res, dis = out['res'], out['dis']
+    print(json.dumps(res, indent=1)); print(json.dumps({k: out[k] for k in ('cases', 'distinct', 'dist')}))
     for x in dis[:int(os.environ.get('SHOW', '6'))]:
         print('SRC  ', repr(x['src'])); print('SPEC ', repr(x['spec'])); print('MODEL', repr(x['model']))
         print('REAL ', repr(x['real'])); print()
